@@ -348,11 +348,21 @@ func (f *frame) builtin(i *ssa.Call, bi *ssa.Builtin, st *State, pc string) {
 		// the destination window [off, off+n) takes the source window; other cells keep their value
 		na := g.s.decl("cp", "(Array Int "+g.sortOf(et)+")")
 		da, sa := g.readHeap(st, h, "(ptr "+dst.S+")"), g.readHeap(st, h, "(ptr "+src.S+")")
-		for _, ix := range []string{"IK", "QK.Int.0"} {
-			g.s.declNamed("QK.Int.0", "Int")
+		cpInst := func(ix string) string {
 			j := "(+ (off " + dst.S + ") " + ix + ")"
-			g.s.assumeUnder(pc, imp(and("(<= 0 "+ix+")", "(< "+ix+" "+n.S+")"), eq("(select "+na.S+" "+j+")", "(select "+sa+" (+ (off "+src.S+") "+ix+"))")))
-			g.s.assumeUnder(pc, imp(or("(< "+ix+" (off "+dst.S+"))", "(>= "+ix+" (+ (off "+dst.S+") "+n.S+"))"), eq("(select "+na.S+" "+ix+")", "(select "+da+" "+ix+")")))
+			return and(imp(and("(<= 0 "+ix+")", "(< "+ix+" "+n.S+")"), eq("(select "+na.S+" "+j+")", "(select "+sa+" (+ (off "+src.S+") "+ix+"))")),
+				imp(or("(< "+ix+" (off "+dst.S+"))", "(>= "+ix+" (+ (off "+dst.S+") "+n.S+"))"), eq("(select "+na.S+" "+ix+")", "(select "+da+" "+ix+")")))
+		}
+		g.s.declNamed("QK.Int.0", "Int")
+		g.s.declNamed("QK.Int.1", "Int")
+		for _, ix := range []string{"IK", "QK.Int.0", "QK.Int.1"} {
+			g.s.assumeUnder(pc, cpInst(ix))
+		}
+		// the same two facts at every index term the code or a contract reads later
+		cpf := &forallFact{sort: "Int", guard: pc, outer: "true", inst: cpInst}
+		g.foralls = append(g.foralls, cpf)
+		for _, t := range append([]string{}, g.instTerms["Int"]...) {
+			g.instOne(cpf, t)
 		}
 		g.writeHeap(st, h, "(ptr "+dst.S+")", na.S)
 		f.vals[i] = n
